@@ -4,6 +4,7 @@ Property theorems and non-vacuity examples only; helper lemmas are in Lemmas/Tri
 -/
 import StyluaModel.Lemmas.Trivia
 import StyluaModel.Lemmas.Eof
+import StyluaModel.Lemmas.EndToken
 
 namespace StyluaModel.C10
 open StyluaModel.Trivia StyluaModel.TriviaLemmas StyluaModel.StrLit
@@ -112,5 +113,16 @@ theorem C10_eof_one_newline (eol : List Char) (lead : List Triv) (o : List Out)
 /-! ## non-vacuity -/
 example : noLoneCR "one\r\ntwo\nthree".toList = true ∧
     fmtText ['\r', '\n'] (.block 0) "one\r\ntwo\nthree".toList = "one\r\ntwo\r\nthree".toList := by decide
+
+/-- **no blank line in front of a closing token**: in the leading trivia of a formatted `end` / `}` / `until`, read
+from the back, indentation aside, the first line ending met directly follows a comment (it is that comment's own
+line ending) - or there is none: runs of blank lines at the end of a block are removed, whatever their length -/
+theorem C10_end_token_no_blank (eol : List Char) (lead : List Trivia.Triv) :
+    EndTokenLemmas.tailClean (EndToken.endLeading eol lead).reverse = true := by
+  simp only [EndToken.endLeading, List.reverse_reverse]
+  exact EndTokenLemmas.scan_clean _
+
+example : EndToken.endLeading ['\n'] [.ws true, .ws true, .comment .line ['c'], .ws true, .ws true, .ws true] =
+    [.newline, .indent, .comment .line ['c'], .newline] := by decide
 
 end StyluaModel.C10
